@@ -76,6 +76,11 @@ NonNeg(v) == Rat([i \in 1..Len(v) |-> PosI(v[i])], 1)
 (* 2. l1: prox of t|x|_1 = sign(v) max(|v| - t, 0), entrywise                                     *)
 Soft(v, p, q) == Rat([i \in 1..Len(v) |-> SgnI(v[i]) * PosI(AbsI(v[i]) * q - p)], q)
 
+(* 2b. l1 with a per-entry threshold ARRAY (soft_thresholding documents "ndarray with shape tensor.shape: one      *)
+(*     threshold is applied per element, 0 values are ignored"; robust_pca passes lam * mask): prox of             *)
+(*     sum_i t_i |x_i| = sign(v_i) max(|v_i| - t_i, 0), thresholds t_i = t[i] / q >= 0.                           *)
+SoftArr(v, t, q) == Rat([i \in 1..Len(v) |-> SgnI(v[i]) * PosI(AbsI(v[i]) * q - t[i])], q)
+
 (* 3. l2 (block soft threshold): prox of t|x|_2 = (1 - t/max(|v|, t)) v.  Rational iff |v| is.    *)
 (*    Defined here for vectors whose norm N is an integer ("Pythagorean"); for the others see    *)
 (*    L2BlockApprox4 in the trace specification and the optimality condition L2KKT below.         *)
@@ -168,12 +173,12 @@ SetValued == {"unimodal", "hard", "normsparse"}
 Projections == {"nonneg", "simplex", "l1ball", "mono", "unimodal", "hard", "normsparse", "normalize"}
 ConvexOps == {"nonneg", "l1", "l2", "l2sq", "smooth", "simplex", "l1ball", "mono"}
 \* operators documented as entrywise / column-wise: matrix inputs are columns processed separately
-ColumnwiseOps == {"nonneg", "l1", "l2sq", "smooth", "simplex", "l1ball", "mono", "unimodal"}
+ColumnwiseOps == {"nonneg", "l1", "l1arr", "l2sq", "smooth", "simplex", "l1ball", "mono", "unimodal"}
 \* how the answer moves when the input is multiplied by c > 0 (and "length" parameters with it):
 \*   "hom"  : Op(c v, c t) = c Op(v, t)      (t a length: threshold / radius)
 \*   "lin"  : Op(c v, t)   = c Op(v, t)      (t dimensionless or absent)
 \*   "inv"  : Op(c v, k)   = Op(v, k)
-ScaleLaw(op) == CASE op \in {"l1", "l2", "simplex", "l1ball"} -> "hom"
+ScaleLaw(op) == CASE op \in {"l1", "l1arr", "l2", "simplex", "l1ball"} -> "hom"
                   [] op \in {"nonneg", "l2sq", "smooth", "mono", "unimodal", "hard"} -> "lin"
                   [] op \in {"normsparse", "normalize"} -> "inv"
 
@@ -423,6 +428,38 @@ ValidMat(mc) == /\ <<mc.m, mc.n>> \in Shapes2
                    ELSE mc.op = "procrustes" /\ mc.p = 0 /\ mc.q = 1 /\ FullRank(mc)
 
 -----------------------------------------------------------------------------
+(* Array-valued threshold (operator "l1arr"): configuration [op, p = 0, q, k = 0, dec = FALSE, v, t].            *)
+ArrQ == 2
+ArrTSet == {0, 1, 2, 6}                      \* t_i = 0 ("ignored"), 1/2, 1, 3 (above every |v_i| of the domain)
+ValidArr(v, t, q) == /\ q = ArrQ /\ Len(v) \in 1..3 /\ Len(t) = Len(v)
+                     /\ \A i \in 1..Len(v) : v[i] \in (-Box)..Box /\ t[i] \in ArrTSet
+\* 2 q den^2 (sum_i t_i |x_i| + 1/2 |x - v|^2)
+ObjArr(v, t, q, num, den) ==
+    2 * den * SumQ([i \in 1..Len(v) |-> t[i] * AbsI(num[i])])
+      + q * SumQ([i \in 1..Len(v) |-> (num[i] - den * v[i]) * (num[i] - den * v[i])])
+ArrOK(c) ==
+    LET n == Len(c.v) IN
+    \A x \in {SoftArr(c.v, c.t, c.q)} : \A ox \in {ObjArr(c.v, c.t, c.q, x.num, x.den)} :
+    /\ ValidArr(c.v, c.t, c.q)
+    \* subgradient condition, entry by entry; a zero threshold leaves the entry untouched
+    /\ \A i \in 1..n :
+          /\ IF x.num[i] = 0 THEN AbsI(c.v[i]) * c.q <= c.t[i]
+             ELSE (c.v[i] * x.den - x.num[i]) * c.q = c.t[i] * SgnI(x.num[i]) * x.den
+          /\ c.t[i] = 0 => x.num[i] = c.v[i] * x.den
+    \* optimal against lattice neighbours and the integer box
+    /\ \A d \in Deltas(n) : ox <= ObjArr(c.v, c.t, c.q, AddS(x.num, d), x.den)
+    /\ \A y \in SeqsOver((-Box)..Box, n) : ox <= ObjArr(c.v, c.t, c.q, ScaleS(x.den, y), x.den)
+    \* a constant array is the scalar operator
+    /\ (\A i \in 1..n : c.t[i] = c.t[1]) => RatEq(x, Soft(c.v, c.t[1], c.q))
+    \* positively homogeneous in (v, t)
+    /\ \A m \in {2, 3} : RatEq(SoftArr(ScaleS(m, c.v), ScaleS(m, c.t), c.q), Rat(ScaleS(m, x.num), x.den))
+    \* firmly non-expansive
+    /\ n <= FneN => \A w \in Vecs(n) :
+          \A Y \in {SoftArr(w, c.t, c.q)} :
+          \A D \in {[i \in 1..n |-> x.num[i] * Y.den - Y.num[i] * x.den]} :
+              SumQ([i \in 1..n |-> D[i] * (c.v[i] - w[i])]) * x.den * Y.den >= Norm2(D)
+
+-----------------------------------------------------------------------------
 (* Parameter grids (strictly positive) and the enumeration of the domain as TLC states            *)
 Fam(op, p, q, k, dec) == [op |-> op, p |-> p, q |-> q, k |-> k, dec |-> dec]
 Families ==
@@ -451,7 +488,13 @@ Init == \/ cfg \in {[op |-> "start", fam |-> f, n |-> n, head |-> h,
                          : o \in {<<"svt", t[1], t[2]>> : t \in SvtParams} \cup {<<"procrustes", 0, 1>>},
                            sh \in Shapes2,
                            uf \in UNION {LeftFrames(d) : d \in {2, 3}}, vf \in UNION {RightFrames(d) : d \in {2, 3}}}
-Next == \/ /\ cfg.op = "start"
+        \/ cfg \in {[op |-> "starta", n |-> n, head |-> h, t1 |-> t1, columnwise |-> TRUE, law |-> ScaleLaw("l1arr")]
+                         : n \in 1..3, h \in (-Box)..Box, t1 \in ArrTSet}
+Next == \/ /\ cfg.op = "starta"
+           /\ cfg' \in {[op |-> "l1arr", p |-> 0, q |-> ArrQ, k |-> 0, dec |-> FALSE, v |-> v, t |-> t]
+                          : v \in {v \in Vecs(cfg.n) : v[1] = cfg.head},
+                            t \in {t \in [1..cfg.n -> ArrTSet] : t[1] = cfg.t1}}
+        \/ /\ cfg.op = "start"
            /\ cfg' \in {[op |-> cfg.fam.op, p |-> cfg.fam.p, q |-> cfg.fam.q, k |-> cfg.fam.k, dec |-> cfg.fam.dec, v |-> v]
                           : v \in {v \in Vecs(cfg.n) : v[1] = cfg.head /\ ~Degenerate(cfg.fam.op, v)}}
         \/ /\ cfg.op = "startm"
@@ -460,6 +503,7 @@ Next == \/ /\ cfg.op = "start"
                                    : c \in Coefs(MinI(cfg.m, cfg.n), (-2)..2)} : ValidMat(mc)}
 Spec == Init /\ [][Next]_cfg
 MatOps == {"svt", "procrustes"}
-SpecOK == /\ cfg.op \notin {"start", "startm", "none"} \cup MatOps => CfgOK(cfg)
+SpecOK == /\ cfg.op \notin {"start", "startm", "starta", "none", "l1arr"} \cup MatOps => CfgOK(cfg)
+          /\ cfg.op = "l1arr" => ArrOK(cfg)
           /\ cfg.op \in MatOps => ValidMat(cfg) /\ MatOK(cfg)
 =============================================================================
